@@ -252,40 +252,59 @@ def r3(run: Run, src, g):
         raise AnalysisError('C05.R3', 'RegexpBaseToken.get not found')
     fn = fi.node
     loc = loc_of(fi.module.path, fn)
-    calls = [n for n in ast.walk(fn) if isinstance(n, ast.Call) and isinstance(n.func, ast.Attribute) and
-             isinstance(n.func.value, ast.Name) and n.func.value.id == 're']
-    deferred = None
-    if len(calls) != 1:
-        # the pattern may be built (compiled) in another method of the class: the wrapping and the flags are decided there, the
-        # group indexing of `get` is then outside the modelled findall form (reported as inconclusive after the flags)
-        calls = [n for m in rb.methods.values() for n in ast.walk(m.node) if isinstance(n, ast.Call) and isinstance(n.func, ast.Attribute)
-                 and isinstance(n.func.value, ast.Name) and n.func.value.id == 're' and n.args and isinstance(n.args[0], ast.JoinedStr)]
-        if len(calls) != 1:
-            raise AnalysisError('C05.R3', 'expected one re.* call that builds the lexer pattern in RegexpBaseToken')
-        deferred = 'the lexer pattern is compiled outside RegexpBaseToken.get: the group indexing of get is not the modelled findall form'
-    call = calls[0]
-    if deferred is None:
-        run.check(call.func.attr == 'findall', 'C05.R3', 'RegexpBaseToken.get/matcher', 'not-findall',
-                  f're.{call.func.attr} is used; the group indexing below is only modelled for re.findall', fact='re.findall', loc=loc)
-    pat = call.args[0] if call.args else None
-    # the pattern must be ^( regexp )( last_match_regexp )$
-    shape_ok = False
-    if isinstance(pat, ast.JoinedStr):
-        segs = []
-        for v in pat.values:
-            if isinstance(v, ast.Constant):
-                segs.append(v.value)
-            elif isinstance(v, ast.FormattedValue) and isinstance(v.value, ast.Attribute):
-                segs.append('{' + v.value.attr + '}')
-            else:
-                segs.append('{?}')
-        shape = ''.join(segs)
-        shape_ok = shape == '^({regexp})({last_match_regexp})$'
-        run.check(shape_ok, 'C05.R3', 'RegexpBaseToken.get/pattern', 'wrapping',
-                  f'the lexer pattern is `{shape}`, not `^({{regexp}})({{last_match_regexp}})$`: token text or tail can escape '
-                  f'the anchors or the two capture groups', fact=shape, loc=loc)
-    else:
-        raise AnalysisError('C05.R3', 'lexer pattern is not an f-string')
+    # (1) where the lexer pattern is built: an f-string ^({regexp})({last_match_regexp})$ handed to re.findall / re.compile /
+    #     re.match, in `get` itself, in another method of the class or in a function of the module (e.g. a cached compile step)
+    scopes = [(m.node, m) for m in rb.methods.values()] + \
+             [(st, None) for st in fi.module.tree.body if isinstance(st, ast.FunctionDef)]
+    builders = []
+    for node, owner in scopes:
+        for n in ast.walk(node):
+            if isinstance(n, ast.Call) and isinstance(n.func, ast.Attribute) and isinstance(n.func.value, ast.Name) and \
+                    n.func.value.id == 're' and n.args and isinstance(n.args[0], ast.JoinedStr):
+                builders.append((n, node))
+    if len(builders) != 1:
+        raise AnalysisError('C05.R3', f'expected one re.* call that builds the lexer pattern from an f-string, found {len(builders)}')
+    call, bfn = builders[0]
+    pat = call.args[0]
+    segs, holes = [], []
+    for v in pat.values:
+        if isinstance(v, ast.Constant):
+            segs.append(v.value)
+        else:
+            segs.append('{}')
+            holes.append(v.value)
+
+    def hole_attr(e):
+        """which class attribute a hole of the f-string stands for"""
+        if isinstance(e, ast.Attribute):
+            return e.attr
+        if isinstance(e, ast.Name) and isinstance(bfn, ast.FunctionDef):
+            params = [a.arg for a in bfn.args.args]
+            if e.id in params:
+                k = params.index(e.id)
+                # the argument passed at that position by the callers inside the class
+                for m in rb.methods.values():
+                    for c in ast.walk(m.node):
+                        if isinstance(c, ast.Call) and ((isinstance(c.func, ast.Name) and c.func.id == bfn.name) or
+                                                        (isinstance(c.func, ast.Attribute) and c.func.attr == bfn.name)):
+                            off = 0 if isinstance(c.func, ast.Name) or bfn not in [x.node for x in rb.methods.values()] else 1
+                            args = list(c.args)
+                            idx = k - off
+                            if 0 <= idx < len(args) and isinstance(args[idx], ast.Attribute):
+                                return args[idx].attr
+                            for kw in c.keywords:
+                                if kw.arg == e.id and isinstance(kw.value, ast.Attribute):
+                                    return kw.value.attr
+        return '?'
+    shape = ''.join(segs)
+    names_ = [hole_attr(h) for h in holes]
+    shape_ok = shape == '^({})({})$' and names_ == ['regexp', 'last_match_regexp']
+    shown = shape
+    for nme in names_:
+        shown = shown.replace('{}', '{' + nme + '}', 1)
+    run.check(shape_ok, 'C05.R3', 'RegexpBaseToken.get/pattern', 'wrapping',
+              f'the lexer pattern is `{shown}`, not `^({{regexp}})({{last_match_regexp}})$`: token text or tail can escape '
+              f'the anchors or the two capture groups', fact=shown, loc=loc)
     fpos = 1 if call.func.attr == 'compile' else 2
     flags = call.args[fpos] if len(call.args) > fpos else next((k.value for k in call.keywords if k.arg == 'flags'), None)
     # a flags value kept in a class attribute (cls._FLAGS = re.M | re.S)
@@ -305,20 +324,60 @@ def r3(run: Run, src, g):
             raise AnalysisError('C05.R3', f'regex flags {sorted(names)} are not modelled')
     else:
         run.ok('C05.R3', 'RegexpBaseToken.get/flags', 'no flags: `$` only matches at the end of the text', loc=loc)
-    if deferred is not None:
-        raise AnalysisError('C05.R3', deferred)
-    # the remainder handed back is the last group; the value is a slice of the same findall row
+    # (2) the row of groups `get` works with: re.findall(..)[0]  or  <match object>.groups(..) of a match at the beginning
+    matcher = call.func.attr if bfn is fn else None
+    if matcher is None:
+        ms = [n for n in ast.walk(fn) if isinstance(n, ast.Call) and isinstance(n.func, ast.Attribute) and
+              n.func.attr in ('match', 'fullmatch', 'search', 'findall') and n.args and isinstance(n.args[0], ast.Name) and
+              n.args[0].id == fi.params[1]]
+        if len(ms) != 1:
+            raise AnalysisError('C05.R3', 'the call that applies the compiled lexer pattern to the text was not found in RegexpBaseToken.get')
+        matcher = ms[0].func.attr
+    run.check(matcher in ('findall', 'match', 'fullmatch', 'search'), 'C05.R3', 'RegexpBaseToken.get/matcher', 'matcher',
+              f're.{matcher} is used to apply the lexer pattern', fact=f'{matcher} of an anchored pattern', loc=loc)
+    local = {}
+    for st in ast.walk(fn):
+        if isinstance(st, ast.Assign) and len(st.targets) == 1 and isinstance(st.targets[0], ast.Name):
+            local.setdefault(st.targets[0].id, []).append(st.value)
+        if isinstance(st, ast.Assign) and len(st.targets) == 1 and isinstance(st.targets[0], ast.Tuple) and \
+                ast.unparse(st.value).endswith('.value_range'):
+            for k_, e_ in enumerate(st.targets[0].elts):
+                if isinstance(e_, ast.Name):
+                    local.setdefault(e_.id, []).append(ast.parse(f'cls.value_range[{k_}]', mode='eval').body)
+
+    def is_group_row(e, depth=0):
+        """the tuple of all groups of the (first) match"""
+        if isinstance(e, ast.Name) and depth < 3 and len(local.get(e.id, [])) == 1:
+            return is_group_row(local[e.id][0], depth + 1)
+        if matcher == 'findall':
+            return isinstance(e, ast.Subscript) and isinstance(e.slice, ast.Constant) and e.slice.value == 0
+        return isinstance(e, ast.Call) and isinstance(e.func, ast.Attribute) and e.func.attr == 'groups'
+
+    def resolve(e, depth=0):
+        if isinstance(e, ast.Name) and depth < 3 and len(local.get(e.id, [])) == 1:
+            return resolve(local[e.id][0], depth + 1)
+        return e
     rets = [n for n in ast.walk(fn) if isinstance(n, ast.Return) and isinstance(n.value, ast.Tuple) and len(n.value.elts) == 2]
     good = [r for r in rets if not (isinstance(r.value.elts[0], ast.Constant) and r.value.elts[0].value is None)]
     if len(good) != 1:
         raise AnalysisError('C05.R3', 'expected one success return in RegexpBaseToken.get')
     rem = good[0].value.elts[1]
     rem_ok = isinstance(rem, ast.Subscript) and isinstance(rem.slice, ast.UnaryOp) and isinstance(rem.slice.op, ast.USub) and \
-        isinstance(rem.slice.operand, ast.Constant) and rem.slice.operand.value == 1 and \
-        isinstance(rem.value, ast.Subscript) and isinstance(rem.value.slice, ast.Constant) and rem.value.slice.value == 0
+        isinstance(rem.slice.operand, ast.Constant) and rem.slice.operand.value == 1 and is_group_row(rem.value)
     run.check(rem_ok, 'C05.R3', 'RegexpBaseToken.get/remainder', 'remainder-group',
               f'the text handed back to the lexer is `{ast.unparse(rem)}`, not the last group of the first match',
-              fact='remainder = result[0][-1]', loc=loc)
+              fact='remainder = last group of the match', loc=loc)
+    # the value of the token: the slice [value_range[0]:value_range[1]] of the same row
+    tok = good[0].value.elts[0]
+    val_ok = False
+    arg0 = resolve(tok.args[0]) if isinstance(tok, ast.Call) and tok.args else None
+    if isinstance(arg0, ast.Subscript) and isinstance(arg0.slice, ast.Slice):
+        sl = arg0.slice
+        lo, hi = (ast.unparse(resolve(sl.lower)) if sl.lower is not None else ''), (ast.unparse(resolve(sl.upper)) if sl.upper is not None else '')
+        val_ok = is_group_row(arg0.value) and lo.endswith('value_range[0]') and hi.endswith('value_range[1]')
+    run.check(val_ok, 'C05.R3', 'RegexpBaseToken.get/value', 'value-slice',
+              f'the token is built as `{ast.unparse(tok)[:80]}`, not from the groups [value_range[0]:value_range[1]] of the match',
+              fact='groups[value_range[0]:value_range[1]]', loc=loc)
     for r in rets:
         if r not in good:
             second = r.value.elts[1]
